@@ -92,7 +92,7 @@ impl Layer for DialogLayer {
                         // in the correct order and distribute it to the usages as well.
                         let mut requests = vec![request.take()];
 
-                        for next_cseq in request_cseq.. {
+                        for next_cseq in (request_cseq + 1).. {
                             if let Some(message) = dialog_entry.backlog.remove(&next_cseq) {
                                 requests.push(message);
                             } else {
